@@ -74,7 +74,7 @@ man = {
  "hooks": {
    "guard": "verif",
    "enable": "no hook is committed to /repo: checks generate instrumented copies of service/ and attachment/ from the current working tree with sim/instr (yields, select/go/map-range rewrites, net->simnet, os->simfs) and pass them to `go test -c -overlay`; the same overlay adds yield hooks to the ReplyBody methods of protocol/model (hook variable nil outside a simulated run); build tag 'verif' is reserved and unused",
-   "baseline_off_cmd": "for m in protocol service terminal; do (cd /repo/$m && go test -vet=off -count=1 ./...) || exit 1; done",
+   "baseline_off_cmd": "for m in shared protocol service attachment terminal; do (cd /repo/$m && go test -json -vet=off -count=1 -timeout 25m ./...); done",
    "source_commits": [],
    "add_only": True,
  },
